@@ -1269,7 +1269,8 @@ def generate(rng, tier, i):
                 op = {"k": "observe", "h": h}
         op["c"] = c
         if op["k"] in ("call", "hcall", "obtain", "derive") and not op.get("again") and rng.random() < 0.07:
-            op["interrupt_at"] = int(10 ** rng.uniform(0, 2.6)) - 1
+            # mostly early in the call; sometimes deep inside (table scans run for thousands of lines)
+            op["interrupt_at"] = int(10 ** rng.uniform(0, 2.6 if rng.random() < 0.6 else 4.3)) - 1
         ops.append(op)
     # pre-emption: run a later-style op of another caller inside a call
     if callers > 1:
